@@ -6,6 +6,11 @@ Cases (JSON):
   {"k": "conc", "w": "sic"|"lru", "max": m, "valid": v|None, "pre": [ev, ...],
    "thr": [argspec, ...], "sched": [tid | ["t", d], ...]}             threads under the line scheduler
   {"k": "df", "attr": "column_names"|"columncount", "pre": frame, "thr": [frame, ...], "sched": [...]}
+  {"k": "sicx", "valid": v|None, "h": [xev, ...]}                     sequential, single_item_cache, acting wrapped function
+  {"k": "lrx", "max": m, "valid": v|None, "h": [xev, ...]}            sequential, lru_cache_with_expiry, acting wrapped function
+xev = ["c", argspec, [xev, ...], raises] | ["t", d]: IF the call invokes the wrapped function, that invocation first performs the
+  nested events (clock advances, further calls of the same wrapper whose exceptions it catches) and then raises (raises = true)
+  or returns its value; a call served from the cache performs nothing.
 ev = ["c", argspec] | ["t", d];  argspec = {"p": [value index, ...], "kw": [[name index, value index], ...]}
 (indices into VALUES / NAMES below).  The clock is a fake `time` object patched into orso.tools
 for the duration of one case; it starts at T0 and moves only on ["t", d].
@@ -43,25 +48,37 @@ LEVEL_TEXT = ("Machine-checked Coq theorems over executable models of single_ite
               "one-entry single_item_cache and the current lru_cache_with_expiry return only values f produced for the caller's own arguments, "
               "within the validity period of the caller's clock reading when served from the cache (the four-slot wrapper of F-C19-1 and the "
               "LRU hit path of F-C19-2 are kept as refuted models). The models are tied to orso/tools.py by running real wrappers on exhaustive small-scope and random histories with a "
-              "fake clock, and under a deterministic line-level scheduler on all two-thread interleavings of the shared-access lines, and "
+              "fake clock - including histories in which the wrapped function itself acts while the wrapper is inside it (raises, calls the wrapper "
+              "again to any depth, lets time pass; forest models with proved size bound, soundness, hit-iff-held and 'a failing call forgets nothing') - "
+              "and under a deterministic line-level scheduler on all two-thread interleavings of the shared-access lines, and "
               "evaluating the models on the same histories/schedules inside Coq; a literal property oracle supplies replayable failing "
-              "histories and schedules. DataFrame.column_names/columncount are exercised across frames under the same scheduler.")
+              "histories and schedules. DataFrame.column_names/columncount are exercised across frames under the same scheduler. For the LRU "
+              "wrapper under interleaving the model is also proved to be back within max_size once every caller has returned, and the oracle checks "
+              "that on the real cache after every scheduled run.")
 LEVEL_NOTE = ("Trusted: Coq kernel + vm_compute; the granularity assumption (one atomic step per source line under the GIL; bytecode-level "
               "interleavings inside a line are not modelled); the AST classification of wrapper lines into clock / cache read / call / cache "
               "write (its result is regenerated into Gen/C19_Shape.v and checked against the model's step list); CPython tuple/dict/frozenset "
               "equality behind the abstract key function. The LRU interleaving theorem (returned values were produced for the "
               "caller's own key and are within the validity period, exceptions allowed) is proved for a model of OrderedDict iteration/KeyError "
               "behaviour which is exercised on the implementation only through the oracle on scheduled runs, not replayed in Coq. The wrappers "
-              "before the fixes of F-C19-1 and F-C19-2 are kept as refuted models. No axioms (Print Assumptions: closed).")
+              "before the fixes of F-C19-1 and F-C19-2 are kept as refuted models. Forests: the order of the LRU entries (which key is evicted) in "
+              "re-entrant histories is judged by the oracle and by the correspondence with the model, not by a history-only theorem (the flat-history "
+              "theorems _evicts_least_recently_used / _recently_used_unexpired_key_hits carry over to forests without bodies only; the order itself is "
+              "C19_lrx_ordered_by_last_use, proved for all forests since the fix of F-C19-3). LRU callers under the scheduler may raise "
+              "RuntimeError/KeyError only before the wrapped function was invoked, or at popitem on an emptied cache (oracle rule; the step model "
+              "has exactly these exceptions). No axioms (Print Assumptions: closed).")
 DESIGN_REF = "DESIGN.md section 8, C19"
 COQ_IMPORTS = "From Orso Require Import Model.C19."
-COQ_CHECKS = {"sic": "c19_sic_check", "lru": "c19_lru_check", "conc": "c19_conc_check"}
-COQ_SHOW = {"sic": "c19_sic_show", "lru": "c19_lru_show", "conc": "c19_conc_show"}
+COQ_CHECKS = {"sic": "c19_sic_check", "lru": "c19_lru_check", "conc": "c19_conc_check", "sicx": "c19_sicx_check", "lrx": "c19_lrx_check"}
+COQ_SHOW = {"sic": "c19_sic_show", "lru": "c19_lru_show", "conc": "c19_conc_show", "sicx": "c19_sicx_show", "lrx": "c19_lrx_show"}
 RULE = ("sequential: histories of calls over an argument alphabet (positional, keyword, mixed, reordered keywords, ==-equal values of "
         "different type, unhashable values for the single-item cache) interleaved with clock advances below/at/above the validity period, "
         "max_size 1..4, exhaustive to a stated depth then random; concurrent: the real wrapper under the line scheduler, all interleavings "
         "of the shared-access lines of two calls for a list of initial cache states and argument pairs, random 2/3-thread schedules with "
-        "clock advances, LRU wrapper and DataFrame.column_names/columncount across frames; a case is non-trivial when at least one call was "
+        "clock advances, LRU wrapper (also: full cache, callers missing on further keys) and DataFrame.column_names/columncount across frames; "
+        "forests (sicx/lrx): calls whose wrapped function raises and/or first performs nested calls of the same wrapper and clock advances, "
+        "exhaustive small scope then random to nesting depth 3, non-trivial when a wrapped function raised or re-entered; "
+        "otherwise a case is non-trivial when at least one call was "
         "served from the cache or (concurrent) two threads were interleaved; distinct by canonical JSON of case + executed schedule")
 TRUSTED = [
     "C19 models (coq/Model/C19.v): single_item_cache and lru_cache_with_expiry as state machines over (cache, clock, invocation counter); "
@@ -72,7 +89,10 @@ TRUSTED = [
     "modelled, not verified: OrderedDict iteration raising RuntimeError on concurrent mutation and KeyError on missing keys (LRU interleaving model)",
 ]
 ASSUMPTIONS = [
-    "the wrapped function does not call the wrapper re-entrantly and does not move the clock",
+    "interleaving theorems: inside a concurrent caller the wrapped function does not call the wrapper re-entrantly, does not raise and does not "
+    "move the clock (the sequential forest models sicx/lrx cover all three: raising, re-entrant calls, clock advances inside the wrapped function)",
+    "forests: an exception raised by a nested call is caught by the wrapped function that made it (a wrapped function that lets it propagate is "
+    "the same forest with raises=true on the outer call)",
     "argument equality is an equivalence decided by key equality (hypothesis keqb_spec of the theorems); NaN-like values are outside the alphabet",
     "the clock does not go backwards (ticks are naturals); the LRU 'most recently used' theorems use it, the single-item ones do not",
 ]
@@ -159,9 +179,11 @@ def analyse(deco):
         for c in ast.iter_child_nodes(n):
             parent[c] = n
     lines = {}
+    ops = {}
 
-    def mark(node, kind):
+    def mark(node, kind, op):
         lines.setdefault(node.lineno, set()).add(kind)
+        ops[node.lineno] = op
 
     for n in ast.walk(w):
         if isinstance(n, (ast.Nonlocal, ast.Global)):
@@ -172,21 +194,21 @@ def analyse(deco):
             if isinstance(fn, ast.Attribute) and isinstance(fn.value, ast.Name) and fn.value.id == "time":
                 if fn.attr != "time":
                     raise ShapeError("clock read through time.%s" % fn.attr)
-                mark(fn, CLOCK)
+                mark(fn, CLOCK, "time")
             if isinstance(fn, ast.Name) and fn.id == "func":
-                mark(fn, CALL)
+                mark(fn, CALL, "func")
         if isinstance(n, ast.Name) and n.id == "cache":
             p = parent.get(n)
             if isinstance(p, ast.Subscript) and p.value is n:
-                mark(n, READ if isinstance(p.ctx, ast.Load) else WRITE)
+                mark(n, READ if isinstance(p.ctx, ast.Load) else WRITE, {"Load": "getitem", "Store": "setitem", "Del": "delitem"}[type(p.ctx).__name__])
             elif isinstance(p, ast.Attribute) and p.value is n and p.attr in _READ_ATTRS:
-                mark(n, READ)
+                mark(n, READ, p.attr)
             elif isinstance(p, ast.Attribute) and p.value is n and p.attr in _WRITE_ATTRS:
-                mark(n, WRITE)
+                mark(n, WRITE, p.attr)
             elif isinstance(p, ast.Compare) and n in p.comparators and all(isinstance(o, (ast.In, ast.NotIn)) for o in p.ops):
-                mark(n, READ)
+                mark(n, READ, "contains")
             elif isinstance(p, ast.Call) and isinstance(p.func, ast.Name) and p.func.id == "len" and n in p.args:
-                mark(n, READ)
+                mark(n, READ, "len")
             else:
                 raise ShapeError("unrecognised use of the cache object at line %d of %s" % (n.lineno, deco.__name__))
         if isinstance(n, ast.Name) and n.id in ("func", "time") and not isinstance(parent.get(n), (ast.Call, ast.Attribute)):
@@ -202,7 +224,11 @@ def analyse(deco):
     ok_first = {w.lineno + first - 1} | {d.lineno + first - 1 for d in w.decorator_list}
     if code.co_name != "wrapper" or code.co_firstlineno not in ok_first or "cache" not in code.co_freevars:
         raise ShapeError("the callable returned by %s is not the analysed wrapper" % deco.__name__)
+    _OPS[deco.__name__] = {ln + first - 1: op for ln, op in ops.items()}
     return code, table, [table[k] for k in sorted(table)]
+
+
+_OPS = {}  # decorator name -> {absolute line number: operation on the shared object ("popitem", "move_to_end", "setitem", ...)}
 
 
 _SHAPES = {}
@@ -360,6 +386,55 @@ def run_seq(w, fn, clock, h, with_keys):
     return outs
 
 
+class Boom(Exception):
+    """Raised by the harness's wrapped function when the case says this invocation fails."""
+
+
+class XFn:
+    """Wrapped function that acts while the wrapper is inside it: the invocation made by call node
+    ["c", argspec, body, raises] first performs `body` (clock advances and further calls THROUGH THE
+    WRAPPER, catching their exceptions) and then raises Boom or returns ("result-for", args, kwargs, n),
+    n = number of invocations begun before this one."""
+
+    def __init__(self, clock, with_keys):
+        self.clock = clock
+        self.with_keys = with_keys
+        self.inv = []  # per invocation begun: [argspec, clock value]
+        self.stack = []
+        self.w = None
+
+    def __call__(self, *args, **kwargs):
+        n = len(self.inv)
+        self.inv.append([enc_args(args, kwargs), self.clock.now])
+        node, rec = self.stack[-1]
+        rec["invoked"] += 1
+        if rec["invoked"] == 1:
+            rec["sub"] = self.run(node[2])
+        if node[3]:
+            raise Boom()
+        return ("result-for", args, kwargs, n)
+
+    def run(self, events):
+        outs = []
+        for ev in events:
+            if ev[0] == "t":
+                self.clock.now += ev[1]
+                continue
+            args, kwargs = build_args(ev[1])
+            rec = {"invoked": 0, "sub": [], "now": self.clock.now}
+            self.stack.append((ev, rec))
+            try:
+                rec["res"] = enc_result(self.w(*args, **kwargs))
+            except Exception as e:
+                rec["exc"] = type(e).__name__
+            finally:
+                self.stack.pop()
+            if self.with_keys:
+                rec["keys"] = lru_keys(self.w)
+            outs.append(rec)
+        return outs
+
+
 # ---------------------------------------------------------------- the line scheduler
 class Deadlock(Exception):
     pass
@@ -412,6 +487,7 @@ def run_threads(calls, code, table, sched_spec, clock, watch=None):
     idents = [None] * n
     entered = set()
     errors = []
+    exc_line = [None] * n  # line of the wrapper at which a caller's exception was raised
 
     def tracer_for(tid):
         def local(frame, event, arg):
@@ -440,6 +516,11 @@ def run_threads(calls, code, table, sched_spec, clock, watch=None):
             errors.append(repr(e))
             results[tid] = ("exc", e)
         except Exception as e:
+            tb = e.__traceback__
+            while tb is not None:
+                if tb.tb_frame.f_code is code:
+                    exc_line[tid] = tb.tb_lineno
+                tb = tb.tb_next
             results[tid] = ("exc", e)
         finally:
             sys.settrace(None)
@@ -468,7 +549,7 @@ def run_threads(calls, code, table, sched_spec, clock, watch=None):
     if errors or any(t.is_alive() for t in ts):
         raise Deadlock("; ".join(errors) or "thread did not finish")
     reads = [clock.reads.get(i) for i in idents]
-    return results, executed, reads, entered, idents
+    return results, executed, reads, entered, idents, exc_line
 
 
 SCHEMAS = [["a", "b"], ["c"], ["a", "d", "e"], ["z", "y", "x", "w"]]
@@ -482,6 +563,10 @@ def observe(case):
             fn = Fn(clock)
             w = make_wrapper(k, case["valid"], case.get("max", 0), fn)
             return {"calls": run_seq(w, fn, clock, case["h"], k == "lru")}
+        if k in ("sicx", "lrx"):
+            fn = XFn(clock, k == "lrx")
+            fn.w = make_wrapper("sic" if k == "sicx" else "lru", case["valid"], case.get("max", 0), fn)
+            return {"calls": fn.run(case["h"])}
         if k == "conc":
             fn = Fn(clock)
             w = make_wrapper(case["w"], case["valid"], case.get("max", 0), fn)
@@ -492,15 +577,19 @@ def observe(case):
                 raise ShapeError("wrapper code object changed")
             packs = [build_args(s) for s in case["thr"]]
             calls = [(lambda a=a, kw=kw: w(*a, **kw)) for a, kw in packs]
-            results, executed, reads, _, idents = run_threads(calls, code, table, case["sched"], clock)
+            results, executed, reads, _, idents, exc_line = run_threads(calls, code, table, case["sched"], clock)
+            ops = _OPS.get("single_item_cache" if case["w"] == "sic" else "lru_cache_with_expiry", {})
             thr = []
             for tid, (tag, r) in enumerate(results):
                 invoked = any(i[2] == idents[tid] for i in fn.inv[n_pre:])
                 if tag == "ok":
                     thr.append({"res": enc_result(r), "invoked": invoked, "now": reads[tid]})
                 else:
-                    thr.append({"exc": type(r).__name__, "invoked": invoked, "now": reads[tid]})
-            return {"pre": pre, "thr": thr, "sched": executed, "inv": [[i[0], i[1]] for i in fn.inv]}
+                    thr.append({"exc": type(r).__name__, "invoked": invoked, "now": reads[tid], "at": ops.get(exc_line[tid])})
+            out = {"pre": pre, "thr": thr, "sched": executed, "inv": [[i[0], i[1]] for i in fn.inv]}
+            if case["w"] == "lru":
+                out["final"] = lru_keys(w)  # content of the cache once every caller has returned
+            return out
         if k == "df":
             from orso.dataframe import DataFrame
 
@@ -518,7 +607,7 @@ def observe(case):
             pre_frame = frame(case["pre"])
             pre_val = getattr(pre_frame, attr)
             calls = [(lambda f=frame(i): getattr(f, attr)) for i in case["thr"]]
-            results, executed, reads, entered, _ = run_threads(calls, code, table, case["sched"], clock, watch=prop.fget.__wrapped__.__code__)
+            results, executed, reads, entered, _, _ = run_threads(calls, code, table, case["sched"], clock, watch=prop.fget.__wrapped__.__code__)
             values = {want(s): i for i, s in enumerate(SCHEMAS)}
             thr = []
             for tid, (tag, r) in enumerate(results):
@@ -638,12 +727,117 @@ def oracle_conc(case, obs, check_fresh=True):
         where = f"thread {tid} calling {spec} under schedule {obs['sched']}"
         if "exc" in o:
             if case["w"] == "lru" and o["exc"] in ("RuntimeError", "KeyError"):
-                continue  # an exception is an allowed outcome of the LRU wrapper under interleaving
+                # allowed outcomes of the LRU wrapper under interleaving: the lookup (sweep, del, get / move_to_end) raced
+                # with another caller BEFORE the wrapped function was invoked; or, after storing, the trim met a cache
+                # that other callers' sweeps had emptied (popitem).  Once the wrapped function has produced this
+                # caller's value nothing else may make the call fail.
+                if not o["invoked"] or o.get("at") == "popitem":
+                    continue
+                return (f"{where}: the wrapped function had produced this caller's value, but the call raised {o['exc']} "
+                        f"at the cache operation '{o.get('at')}' (another caller removed the key in between)")
             return f"{where}: raised {o['exc']}"
         why = _check_value(where, spec, o, inv_specs, inv_times, valid, o["now"] if check_fresh else None)
         if why:
             return why
+    if "final" in obs:
+        # once every caller has returned: the cache is back within its capacity, one entry per key, and
+        # every entry belongs to arguments the wrapped function was invoked for
+        keys = [((kk["bad"],) if "bad" in kk else canon(kk)) for kk, _ in obs["final"]]
+        where = f"after all callers returned (schedule {obs['sched']})"
+        if len(keys) > case["max"]:
+            return (f"{where}: the cache holds {len(keys)} keys {keys}, more than max_size {case['max']}; a key that is not among the "
+                    "max_size most recently used keys would be served from the cache")
+        if len(set(keys)) != len(keys):
+            return f"{where}: the cache holds a key twice: {keys}"
+        for kk in keys:
+            if kk not in [canon(i) for i in inv_specs]:
+                return f"{where}: the cache holds key {kk} for which the wrapped function was never invoked"
     return None
+
+
+def _walk_x(case, obs):
+    """Reference for histories in which the wrapped function acts (forests).  Read literally: a call
+    is served from the cache exactly when an unexpired value produced for equal arguments is held -
+    the value of the last call that produced one (single item) / of one of the max_size most recently
+    used keys (LRU; a key is used when a call for it is served or when the value computed for it is
+    stored, i.e. when that call completes); a call whose wrapped function raises propagates the
+    exception, produces no value, and therefore adds nothing and forgets nothing; the calls the
+    wrapped function makes through the wrapper are calls like any other.  Expired entries are dropped
+    when the next call begins (they are held until then, as in oracle_lru)."""
+    lru = case["k"] == "lrx"
+    valid, mx = case["valid"], case.get("max")
+    st = {"now": T0, "held": [], "stamp": 0}
+    inv_specs, inv_times = [], []
+
+    def stamp():
+        st["stamp"] += 1
+        return st["stamp"]
+
+    def walk(events, outs, path):
+        if len(outs) != sum(1 for e in events if e[0] == "c"):
+            return f"harness: {len(outs)} observations for the calls of {events}"
+        it = iter(outs)
+        for i, ev in enumerate(events):
+            if ev[0] == "t":
+                st["now"] += ev[1]
+                continue
+            o = next(it)
+            spec, body, raises = ev[1], ev[2], ev[3]
+            now0 = st["now"]
+            where = f"call {spec} at {now0} (event {'.'.join(map(str, path + [i]))})"
+            if lru:
+                st["held"] = [e for e in st["held"] if _fresh(valid, now0, e["ts"])]
+            mine = [e for e in st["held"] if e["key"] == canon(spec) and _fresh(valid, now0, e["ts"])]
+            if o["invoked"] > 1:
+                return f"{where}: the wrapped function was invoked {o['invoked']} times by one call"
+            if (o["invoked"] == 0) != bool(mine):
+                return (f"{where}: the wrapped function was {'not ' if not o['invoked'] else ''}invoked, but an unexpired entry for equal "
+                        f"arguments is {'held' if mine else 'not held'}" + (f" among the {mx} most recently used keys" if lru else " (the last call only)"))
+            if mine:
+                why = _check_value(where, spec, o, inv_specs, inv_times, valid, now0)
+                if why:
+                    return why
+                if o["res"][1] != mine[0]["n"]:
+                    return f"{where}: expected the held value (invocation {mine[0]['n']}), got invocation {o['res'][1]}"
+                mine[0]["used"] = stamp()
+            else:
+                n = len(inv_specs)
+                inv_specs.append(spec)
+                inv_times.append(now0)
+                why = walk(body, o["sub"], path + [i])
+                if why:
+                    return why
+                if raises:
+                    if o.get("exc") != "Boom":
+                        return f"{where}: the wrapped function raised; the call must propagate that exception, observed {o.get('exc') or o.get('res')}"
+                else:
+                    why = _check_value(where, spec, o, inv_specs, inv_times, valid, now0)
+                    if why:
+                        return why
+                    if o["res"][1] != n:
+                        return f"{where}: a call that invoked the wrapped function must return the value of that invocation ({n}), got {o['res'][1]}"
+                    entry = {"key": canon(spec), "ts": now0, "n": n, "used": stamp()}
+                    if lru:
+                        st["held"] = [e for e in st["held"] if e["key"] != canon(spec)] + [entry]
+                        if len(st["held"]) > mx:
+                            st["held"].remove(min(st["held"], key=lambda e: e["used"]))
+                    else:
+                        st["held"] = [entry]
+            if lru:
+                keys = [((kk["bad"],) if "bad" in kk else canon(kk), ts) for kk, ts in o["keys"]]
+                want = [(e["key"], e["ts"]) for e in sorted(st["held"], key=lambda e: e["used"])]
+                if len(keys) > mx:
+                    return f"{where}: after the call the cache holds {len(keys)} keys, more than max_size {mx}: {keys}"
+                if keys != want:
+                    return (f"{where}: after the call the cache holds {keys}, expected {want} (the {mx} most recently used keys; "
+                            "a call that raised adds nothing and forgets nothing)")
+        return None
+
+    return walk(case["h"], obs["calls"], [])
+
+
+def oracle_x(case, obs):
+    return _walk_x(case, obs)
 
 
 def oracle_df(case, obs):
@@ -657,7 +851,7 @@ def oracle_df(case, obs):
 
 
 def oracle(case, obs):
-    return {"sic": oracle_sic, "lru": oracle_lru, "conc": oracle_conc, "df": oracle_df}[case["k"]](case, obs)
+    return {"sic": oracle_sic, "lru": oracle_lru, "conc": oracle_conc, "df": oracle_df, "sicx": oracle_x, "lrx": oracle_x}[case["k"]](case, obs)
 
 
 # ---------------------------------------------------------------- Coq literals
@@ -686,6 +880,28 @@ def c_valid(v):
     return "(%s : option Z)" % L.opt(None if v is None else L.Z(v))
 
 
+def c_xev(e):
+    if e[0] == "t":
+        return "(XTick %s)" % L.N(e[1])
+    return "(XCall %s (xl %s) %s)" % (c_arg(e[1]), c_forest(e[2]), L.boolean(e[3]))
+
+
+def c_forest(h):
+    return "(%s : list (@xev carg))" % L.lst(c_xev(e) for e in h)
+
+
+def flat_x(outs):
+    """Observations of a forest in order of completion (nested calls before the call whose invocation made them)."""
+    for o in outs:
+        if o["invoked"]:
+            yield from flat_x(o["sub"])
+        yield o
+
+
+def c_ores(o):
+    return "(%s : option cres)" % L.opt(None if "exc" in o else c_res(o["res"]))
+
+
 def _plain(calls):
     return all("exc" not in o and isinstance(o["res"], list) for o in calls)
 
@@ -704,6 +920,19 @@ def to_coq(case, obs):
             "(%s, %s, (%s : list (ckey * Z)))" % (L.boolean(c["hit"]), c_res(c["res"]), L.lst(L.pair(c_key(kk), L.Z(ts)) for kk, ts in c["keys"]))
             for c in obs["calls"])
         return ("lru", "(%s, %s, %s, %s, %s)" % (L.nat(case["max"]), c_valid(case["valid"]), L.Z(T0), c_hist(case["h"]), o))
+    if k in ("sicx", "lrx"):
+        fl = list(flat_x(obs["calls"]))
+        if any(o["invoked"] > 1 or o.get("exc", "Boom") != "Boom" or isinstance(o.get("res"), dict) for o in fl):
+            return None
+        if k == "sicx":
+            o = "(%s : list (bool * option cres))" % L.lst(L.pair(L.boolean(c["invoked"] == 0), c_ores(c)) for c in fl)
+            return ("sicx", "(%s, %s, %s, %s)" % (c_valid(case["valid"]), L.Z(T0), c_forest(case["h"]), o))
+        if any("bad" in kk for c in fl for kk, _ in c["keys"]):
+            return None
+        o = "(%s : list (bool * option cres * list (ckey * Z)))" % L.lst(
+            "(%s, %s, (%s : list (ckey * Z)))" % (L.boolean(c["invoked"] == 0), c_ores(c), L.lst(L.pair(c_key(kk), L.Z(ts)) for kk, ts in c["keys"]))
+            for c in fl)
+        return ("lrx", "(%s, %s, %s, %s, %s)" % (L.nat(case["max"]), c_valid(case["valid"]), L.Z(T0), c_forest(case["h"]), o))
     if k == "conc":
         if case["w"] != "sic" or not _plain(obs["thr"]) or not _plain(obs["pre"]):
             return None
@@ -724,7 +953,7 @@ def to_coq(case, obs):
 
 
 def known(case, obs):
-    return None
+    return None  # F-C19-1, F-C19-2, F-C19-3 are fixed in /repo; their witnesses are corpus cases
 
 
 def _interleaved(sched):
@@ -737,6 +966,11 @@ def nontrivial_key(case, obs):
     k = case["k"]
     if k in ("sic", "lru"):
         if not any(o.get("hit") for o in obs["calls"]):
+            return None
+        return repr(case)
+    if k in ("sicx", "lrx"):
+        fl = list(flat_x(obs["calls"]))
+        if not any(o["sub"] or "exc" in o for o in fl):
             return None
         return repr(case)
     if not _interleaved(obs["sched"]):
@@ -765,6 +999,23 @@ def classify(case, obs):
             yield "clock-advanced"
         if k == "lru" and any(len(o.get("keys", [])) == case["max"] for o in obs["calls"]):
             yield "lru:full"
+    elif k in ("sicx", "lrx"):
+        fl = list(flat_x(obs["calls"]))
+        yield "valid=" + str(case["valid"])
+        if k == "lrx":
+            yield "max_size=%d" % case["max"]
+        if any("exc" in o for o in fl):
+            yield "x:wrapped-function-raised"
+        if any(o["sub"] for o in fl):
+            yield "x:re-entrant"
+        if any(s2["sub"] for o in fl for s2 in o["sub"]):
+            yield "x:re-entrant-depth>=2"
+        if any(s2["invoked"] == 0 for o in fl for s2 in o["sub"]):
+            yield "x:nested-call-served-from-cache"
+        if any("exc" in o and o["sub"] for o in fl):
+            yield "x:raised-after-nested-calls"
+        if k == "lrx" and any(len(o["keys"]) == case["max"] for o in fl):
+            yield "lru:full"
     else:
         yield "threads=%d" % len(case["thr"])
         if _interleaved(obs["sched"]):
@@ -784,6 +1035,10 @@ def C(spec):
 
 def Tk(d):
     return ["t", d]
+
+
+def X(spec, body=(), raises=False):
+    return ["c", spec, [list(e) if e[0] == "t" else e for e in body], bool(raises)]
 
 
 def interleavings(n0, n1):
@@ -843,6 +1098,25 @@ def corpus():
     yield {"k": "df", "attr": "column_names", "pre": 2, "thr": [0, 1], "sched": [0, 0, 1, 1, 1, 1, 0, 0]}
     yield {"k": "sic", "valid": 1, "h": [C(a1), C(a1), Tk(1), C(a1), Tk(1), C(a1), C(a0), C(a1)]}
     yield {"k": "lru", "max": 2, "valid": 10, "h": [C(a0), Tk(1), C(a1), Tk(1), C(a0), Tk(1), C(kx1), Tk(8), C(a1), C(a0), C(kx1)]}
+    # round 3: the wrapped function acts while the wrapper is inside it
+    # a failing call forgets nothing: both keys held before it are still served afterwards
+    yield {"k": "lrx", "max": 2, "valid": None, "h": [X(a0), X(a1), X(kx1, [], True), X(a1), X(a0)]}
+    # recursive memoisation: c asks for d through the wrapper; afterwards d and c are held, a and b are not
+    yield {"k": "lrx", "max": 2, "valid": None, "h": [X(a0), X(a1), X(kx1, [X(mixed)]), X(kx1), X(mixed), X(a1)]}
+    yield {"k": "lrx", "max": 2, "valid": 5, "h": [X(a0), X(a1, [Tk(3), X(kx1, [X(a0), Tk(3), X(mixed, [], True)]), X(a1)]), X(a1), X(kx1)]}
+    yield {"k": "sicx", "valid": None, "h": [X(a1), X(a0, [], True), X(a1), X(a0, [X(a1), X(kx1)]), X(a0), X(kx1)]}
+    yield {"k": "sicx", "valid": 2, "h": [X(a1, [Tk(1), X(a1, [Tk(2)], True), X(a0)]), X(a1), Tk(2), X(a1)]}
+    # witness of the fixed finding F-C19-3: the wrapped function re-enters for the key being computed, then uses other keys;
+    # the outer call's store must make its key the most recently used one (and evict accordingly)
+    yield {"k": "lrx", "max": 2, "valid": 2, "h": [X(kx1, [X(kx1), X(a0)])]}
+    yield {"k": "lrx", "max": 2, "valid": None, "h": [X(kx1, [X(kx1), X(a0)]), X(a1), X(kx1), X(a0)]}
+    yield {"k": "lrx", "max": 3, "valid": None, "h": [X(a1), X(kx1, [X(a0), X(kx1, [X(mixed)]), X(a1)]), X(a0), X(kx1), X(mixed), X(a1)]}
+    # the same between threads: both callers compute the same key, others are used in between (oracle: content at rest)
+    for i in range(4, 9):
+        yield {"k": "conc", "w": "lru", "max": 2, "valid": None, "pre": [C(a0)], "thr": [kx1, kx1, a1], "sched": [0] * i + [1] * 14 + [2] * 14}
+    # two callers miss on a full cache, one is parked inside / just after the wrapped function while the other completes
+    for i in range(4, 9):
+        yield {"k": "conc", "w": "lru", "max": 2, "valid": None, "pre": [C(a0), C(a1)], "thr": [kx1, mixed], "sched": [0] * i + [1] * 14}
 
 
 def _letters(v, specs):
@@ -876,6 +1150,43 @@ def exhaustive(tier):
                 for j in range(0, nl):
                     yield {"k": "conc", "w": "lru", "max": 2, "valid": V, "pre": pre, "thr": thr,
                            "sched": [0] * i + [Tk(V + 1)] + [1] * j + [0] * 12 + [1] * 12}
+        # round 3: forests.  (i) every flat history in which each call may also fail; (ii) one call whose invocation
+        # performs every body of <= 2 events (nested calls for a held key, a new key, its own key; a clock advance up to
+        # the validity period), failing or not, on an empty / half-full / full cache; the single-item cache has no
+        # observable content, so a probe call follows
+        d_x = 3 if quick else 4
+        xs = [a1, a0, kx1]
+        letters = [X(sp, [], r) for sp in xs for r in (False, True)] + [Tk(1), Tk(2)]
+        for d in range(1, d_x + 1):
+            for h in itertools.product(letters, repeat=d):
+                if not any(e[0] == "c" and e[3] for e in h):
+                    continue  # never fails: already enumerated as a flat history
+                for mx in (1, 2):
+                    if quick and d == 3 and (mx == 1 or sum(1 for e in h if e[0] == "c" and e[3]) > 1):
+                        continue
+                    yield {"k": "lrx", "max": mx, "valid": 2, "h": [copy.deepcopy(e) for e in h]}
+                if d <= (2 if quick else 3):
+                    yield {"k": "sicx", "valid": 2, "h": [copy.deepcopy(e) for e in h]}
+        inner = [X(a0), X(mixed), X(kx1), Tk(2)] + ([] if quick else [X(a1, [], True), X(a0, [X(mixed)])])
+        bodies = [list(b) for n in range(0, 3) for b in itertools.product(inner, repeat=n)][1:]
+        for pre in ([], [X(a1)], [X(a1), X(a0)]):
+            for outer in (kx1, a1):
+                for body in bodies:
+                    for raises in (False, True):
+                        for mx in (1, 2) if quick else (1, 2, 3):
+                            yield {"k": "lrx", "max": mx, "valid": 2, "h": copy.deepcopy(pre + [X(outer, body, raises)])}
+                        if len(pre) < 2:
+                            for probe in ((outer, a0) if quick else (outer, a0, a1, mixed)):
+                                yield {"k": "sicx", "valid": 2, "h": copy.deepcopy(pre + [X(outer, body, raises), X(probe)])}
+        # LRU wrapper, full cache, two callers missing on two further keys: one is stopped after i shared lines
+        # (in particular: inside / just after the wrapped function), the other after j, then both finish (oracle only)
+        for mx, pre, thr in ((2, [C(a0), C(a1)], [kx1, mixed]), (1, [C(a0)], [kx1, mixed]), (2, [C(a0), C(a1)], [kx1, a0])):
+            for i in range(0, nl + 3):
+                for j in range(0, nl + 3):
+                    if quick and (i + j) % 2 and mx == 1:
+                        continue
+                    yield {"k": "conc", "w": "lru", "max": mx, "valid": V, "pre": pre, "thr": thr,
+                           "sched": [0] * i + [1] * j + [0] * 14 + [1] * 14}
         for attr in ("column_names", "columncount"):
             for pre, thr in ((2, [0, 1]), (0, [0, 1]), (1, [0, 1]), (2, [0, 0]), (0, [1, 1])):
                 if quick and (attr == "columncount" and pre != 2):
@@ -883,12 +1194,17 @@ def exhaustive(tier):
                 for s in two_thread_schedules(n):
                     yield {"k": "df", "attr": attr, "pre": pre, "thr": thr, "sched": s}
 
-    return it(), ("sequential: all histories of depth <= %s over {4 (sic) / 3 (lru) argument packs, tick 1, tick validity} with validity 2, "
+    return it(), (("sequential: all histories of depth <= %s over {4 (sic) / 3 (lru) argument packs, tick 1, tick validity} with validity 2, "
                   "max_size 1..4; concurrent: %s of two calls (%d shared-access lines each) for %d initial-state/argument configurations, and "
-                  "DataFrame.column_names/columncount across two frames; LRU wrapper: two callers, schedules 0^i tick 1^j 0* 1* for i, j < 9"
-                  % ("3" if quick else "5 (4 for max_size 3, 4)",
+                  "DataFrame.column_names/columncount across two frames; LRU wrapper: two callers, schedules 0^i tick 1^j 0* 1* for i, j < 9, "
+                  "and 0^i 1^j 0* 1* (i, j < 12) on a full cache with two further keys; acting wrapped function (forests): all flat histories "
+                  "of depth <= %s over 3 packs x {returns, raises} + 2 ticks with at least one failing call, max_size 1, 2 (quick tier at depth 3: "
+                  "max_size 2, exactly one failing call), and one call whose "
+                  "invocation performs every body of <= 2 events over {held key, new key, own key, tick} (raising or not) on an empty / "
+                  "half-full / full cache"
+                  ) % ("3" if quick else "5 (4 for max_size 3, 4)",
                      "all interleavings of the shared-access lines" if math.comb(2 * n, n) <= 300 else "all schedules with at most three context switches",
-                     n, len(CONC_CONFIGS_QUICK) + (0 if quick else len(CONC_CONFIGS_MORE))))
+                     n, len(CONC_CONFIGS_QUICK) + (0 if quick else len(CONC_CONFIGS_MORE)), "3" if quick else "4"))
 
 
 def _rand_hist(rng, alphabet, valid, lo=1, hi=14):
@@ -965,6 +1281,41 @@ def _rand_stale(rng):
     return {"k": "conc", "w": w, "max": rng.randint(1, 2), "valid": valid, "pre": pre, "thr": thr, "sched": sched}
 
 
+def _rand_forest(rng, specs, valid, depth, lo, hi):
+    v = 3 if valid is None else valid
+    h = []
+    for _ in range(rng.randint(lo, hi)):
+        r = rng.random()
+        if r < 0.75:
+            body = _rand_forest(rng, specs, valid, depth - 1, 0, 3) if depth > 0 and rng.random() < 0.45 else []
+            h.append(X(rng.choice(specs), body, rng.random() < 0.2))
+        else:
+            h.append(Tk(rng.choice([0, 1, max(v - 1, 0), v, v + 1])))
+    return h
+
+
+def _random_x(rng):
+    valid = rng.choice([None, None, 0, 1, 3, 10])
+    if rng.random() < 0.35:
+        specs = rng.sample(ALPHA_SIC, rng.randint(1, 4))
+        return {"k": "sicx", "valid": valid, "h": _rand_forest(rng, specs, valid, 2, 1, 7)}
+    specs = rng.sample(ALPHA_HASHABLE, rng.randint(2, 5))
+    return {"k": "lrx", "max": rng.randint(1, 4), "valid": valid, "h": _rand_forest(rng, specs, valid, 2, 1, 8)}
+
+
+def _rand_full(rng):
+    """LRU wrapper under the scheduler with a cache that is full (or one short) before the callers start and callers
+    that mostly miss on further keys: the situations in which the size bookkeeping of concurrent misses matters."""
+    mx = rng.randint(1, 3)
+    keys = rng.sample(ALPHA_HASHABLE, mx + 3)
+    pre = [C(k) for k in keys[:rng.choice([mx, mx, max(mx - 1, 0)])]]
+    nthr = rng.choice([2, 2, 3])
+    thr = [rng.choice(keys[mx:] if rng.random() < 0.8 else keys) for _ in range(nthr)]
+    n = n_lines("lru", 10) + mx + 2
+    return {"k": "conc", "w": "lru", "max": mx, "valid": rng.choice([None, V]), "pre": pre, "thr": thr,
+            "sched": _rand_sched(rng, nthr, n, ticks=rng.random() < 0.3)}
+
+
 def _random_case(rng, i):
     m = i % 10
     if m < 3:
@@ -989,6 +1340,10 @@ def generate(rng, tier):
     count = 1000 if tier == "quick" else 20000
     for i in range(count):
         yield _random_case(rng, i)
+        if i % 4 == 0:
+            yield _random_x(rng)
+        if i % 20 == 10:
+            yield _rand_full(rng)
 
 
 def search(rng):
@@ -1002,11 +1357,34 @@ def search(rng):
     i = 0
     while True:
         yield _random_case(rng, i)
+        yield _random_x(rng)
+        if i % 3 == 0:
+            yield _rand_full(rng)
         i += 1
+
+
+def _shrink_forest(h):
+    for i in range(len(h)):
+        yield h[:i] + h[i + 1:]
+    for i, e in enumerate(h):
+        if e[0] != "c":
+            continue
+        if e[2]:
+            yield h[:i] + e[2] + h[i + 1:]          # the nested events instead of the call
+            for b in _shrink_forest(e[2]):
+                yield h[:i] + [[e[0], e[1], b, e[3]]] + h[i + 1:]
+        if e[3]:
+            yield h[:i] + [[e[0], e[1], e[2], False]] + h[i + 1:]
 
 
 def shrink(case):
     k = case["k"]
+    if k in ("sicx", "lrx"):
+        for h in _shrink_forest(case["h"]):
+            yield dict(case, h=h)
+        if k == "lrx" and case["max"] > 1:
+            yield dict(case, max=case["max"] - 1)
+        return
     if k in ("sic", "lru"):
         h = case["h"]
         for i in range(len(h)):
